@@ -6,9 +6,11 @@ import (
 	"fmt"
 	"sort"
 	"strings"
+	"sync"
 	"sync/atomic"
 	"time"
 
+	"github.com/dtn7/dtn7-go/pkg/agent"
 	"github.com/dtn7/dtn7-go/pkg/bpv7"
 	"github.com/dtn7/dtn7-go/verif/ev"
 	"github.com/dtn7/dtn7-go/verif/gen"
@@ -234,6 +236,19 @@ func c02Violators() []violator {
 		}
 		return true
 	})
+	// counts beyond one octet: a decoder narrowing the count to 8 bits sees count mod 256
+	for _, d := range []uint64{256, 65536, 1 << 32} {
+		d := d
+		add(fmt.Sprintf("hopcount-wraps-mod-%d", d), func(t *ref.Node) bool {
+			_, b := blkOf(t, ref.THopCount)
+			if b == nil || len(b.Kids[4].Inner) == 0 {
+				return false
+			}
+			h := b.Kids[4].Inner[0]
+			h.Kids[1].Val = h.Kids[0].Val + d // limit + 256 etc.: far above the limit, equal to it modulo 256
+			return true
+		})
+	}
 	add("hopcount-0-limit-1-count", func(t *ref.Node) bool {
 		_, b := blkOf(t, ref.THopCount)
 		if b == nil || len(b.Kids[4].Inner) == 0 {
@@ -720,14 +735,122 @@ func runC02(r *ev.Run, thorough bool) int {
 	r.Add("build_maps", nMaps)
 	r.Add("build_map_panics_not_judged_here", nMapPanics)
 	r.Add("build_maps_built", nMapBuilt)
-	if effective == 0 || nBuilt == 0 || nMapBuilt == 0 || nOKAccepted == 0 {
+	// producers "fragmentation" and "reassembly": every fragment Fragment returns, and every bundle reassembled from
+	// them, obeys the rules and is accepted by the parser (Fragment may refuse instead)
+	var nFragSets, nFrags, nRefused int64
+	fragSpecs := c02FragmentSpecs()
+	for si, sp := range fragSpecs {
+		b := sp.Build()
+		if b.CheckValid() != nil {
+			continue
+		}
+		enc, _ := gen.Ser(&b)
+		for _, mtu := range []int{len(enc) - 1, len(enc) / 2, len(enc) / 3, 160, 120} {
+			if mtu < 60 {
+				continue
+			}
+			frags, err := func() (f []bpv7.Bundle, e error) {
+				defer func() {
+					if r := recover(); r != nil {
+						e = fmt.Errorf("panic: %v", r)
+					}
+				}()
+				return b.Fragment(mtu)
+			}()
+			if err != nil {
+				nRefused++
+				continue
+			}
+			nFragSets++
+			c := map[string]interface{}{"spec": fragSpecs[si], "mtu": mtu}
+			for fi := range frags {
+				nFrags++
+				if k, d := c02CheckProduced(frags[fi]); k != "" {
+					r.Violation(strings.Replace(k, "C02/produced", "C02/fragment", 1), "fragment", fmt.Sprintf("fragment %d of %d (size limit %d): %s", fi, len(frags), mtu, d), c)
+					break
+				}
+			}
+			if len(frags) > 1 {
+				if rb, rerr := bpv7.ReassembleFragments(frags); rerr == nil {
+					if k, d := c02CheckProduced(rb); k != "" {
+						r.Violation(strings.Replace(k, "C02/produced", "C02/reassembled", 1), "fragment", fmt.Sprintf("bundle reassembled from %d fragments (size limit %d): %s", len(frags), mtu, d), c)
+					}
+				}
+			}
+		}
+	}
+	nodeGen, nodeKinds := c02NodeGenerated(r)
+	r.Add("node_generated_bundles_checked", int64(nodeGen))
+	var kindList []string
+	for k := range nodeKinds {
+		kindList = append(kindList, k)
+	}
+	sort.Strings(kindList)
+	for _, k := range kindList {
+		r.Add("node_generated_kind:"+k, 1)
+	}
+	for _, need := range []string{"pong", "prophet-metadata", "dtlsr-metadata", "status-report:0/0", "status-report:1/0", "status-report:2/0"} {
+		if !nodeKinds[need] && !par.DeadlineHit() {
+			r.Violation("C02/vacuous", "none", "the node-generated part never saw a "+need, nil)
+		}
+	}
+	r.Add("fragmentations_checked", nFragSets)
+	r.Add("fragments_checked", nFrags)
+	r.Add("fragmentations_refused", nRefused)
+	if effective == 0 || nBuilt == 0 || nMapBuilt == 0 || nOKAccepted == 0 || nFrags == 0 || (nodeGen == 0 && !par.DeadlineHit()) {
 		r.Violation("C02/vacuous", "none", "a part of the check explored nothing of substance", nil)
 	}
 	return r.Finish(map[string]interface{}{
 		"evaluations":         nCases + nSeq + nMaps,
 		"distinct_nontrivial": nViolating + nBuilt + nMapBuilt,
-		"rule":                fmt.Sprintf("%d rule violators (each BPv7 structural rule in several concrete forms, plus valid-side boundary cases) applied through a reference tree editor to %d valid base encodings, all subsets of <= %d violators, CRCs recomputed; builder: a 5-call valid base combined (after / before / in the middle / without payload) with every sequence over %d concrete calls up to length %d; all BuildFromMap maps over an 11-key value table with <= %d free keys; non-trivial = encoding the reference predicate judges violating, or a bundle actually produced by the builder / BuildFromMap", len(vs), len(bases), maxSub, len(calls), L+1, K+2),
+		"rule":                fmt.Sprintf("%d rule violators (each BPv7 structural rule in several concrete forms, plus valid-side boundary cases) applied through a reference tree editor to %d valid base encodings, all subsets of <= %d violators, CRCs recomputed; builder: a 5-call valid base combined (after / before / in the middle / without payload) with every sequence over %d concrete calls up to length %d; all BuildFromMap maps over an 11-key value table with <= %d free keys; fragmentation and reassembly as producers: %d valid bundles (zero / non-zero creation time, age and hop-count blocks with and without the replicate flag, CRC mixes, whole bundles and fragments) x 5 size limits, every fragment and every reassembled bundle judged like a built one; non-trivial = encoding the reference predicate judges violating, or a bundle actually produced by the builder / BuildFromMap", len(vs), len(bases), maxSub, len(calls), L+1, K+2, len(fragSpecs)),
 	}, []string{"reference validity predicate (mc/ref Rules) transcribed from the statement; ipn node/service >= 1 as in the tree's own rule", "BuildFromMap iterates a Go map: only order-independent facts are checked there; all call orders are covered by the builder sequences"})
+}
+
+// c02FragmentSpecs: valid bundles whose blocks differ in what a fragment must or must not carry (replicate flag set
+// or not on each block kind, zero or non-zero creation time, already a fragment).
+func c02FragmentSpecs() []gen.Spec {
+	var out []gen.Spec
+	base := gen.Spec{Dst: "dtn://dst/x", Src: "dtn://src/app", Rpt: "dtn://src/app", PCRC: 2, Lifetime: 3600000, PayLen: 300, PaySeed: 7}
+	for _, zero := range []bool{false, true} {
+		for _, ageRepl := range []int{0, 1, 2} { // no age block / age block without / with the replicate flag
+			if zero && ageRepl == 0 {
+				continue
+			}
+			for _, hopRepl := range []int{0, 1, 2} {
+				for _, pcrc := range []uint64{0, 1, 2} {
+					s := base
+					s.PCRC, s.PayCRC = pcrc, 2-pcrc
+					if !zero {
+						s.Time = DtnNow()
+					}
+					var ext []gen.BSpec
+					if ageRepl > 0 {
+						f := uint64(0)
+						if ageRepl == 2 {
+							f = ref.BReplicate
+						}
+						ext = append(ext, gen.BSpec{Kind: "age", N: []uint64{500}, Flags: f})
+					}
+					if hopRepl > 0 {
+						f := uint64(0)
+						if hopRepl == 2 {
+							f = ref.BReplicate
+						}
+						ext = append(ext, gen.BSpec{Kind: "hop", N: []uint64{20, 3}, Flags: f})
+					}
+					ext = append(ext, gen.BSpec{Kind: "prev", S: []string{"dtn://prev/"}})
+					s.Ext = ext
+					out = append(out, s)
+					fr := s
+					fr.Flags |= ref.FIsFragment
+					fr.FragOff, fr.Total = 100, 1000
+					out = append(out, fr)
+				}
+			}
+		}
+	}
+	return out
 }
 
 func replayC02(kind string, c json.RawMessage) (string, bool) {
@@ -765,4 +888,143 @@ func replayC02(kind string, c json.RawMessage) (string, bool) {
 		return k + ": " + d, k != ""
 	}
 	return "unknown kind", false
+}
+
+// ---- bundles the node generates itself (status reports, pongs, routing metadata) ----
+
+func init() { workers["c02node"] = c02NodeWorker }
+
+type c02NodeOut struct {
+	Viol      []schedViol `json:"viol,omitempty"`
+	Generated int         `json:"generated"`
+	Kinds     []string    `json:"kinds"`
+}
+
+func c02NodeWorker(task []byte) []byte {
+	var t struct {
+		Algo string `json:"algo"`
+	}
+	_ = json.Unmarshal(task, &t)
+	useVirtualClock()
+	var out c02NodeOut
+	n, err := newNhNode(nhConfig{Algo: t.Algo, SprayL: 4, Agents: true})
+	if err != nil {
+		out.Viol = append(out.Viol, schedViol{Key: "harness", Desc: err.Error()})
+		return mustJSON(out)
+	}
+	defer n.destroy()
+	ping := agent.NewPing(gen.MustEID("dtn://node/ping"))
+	n.core.RegisterApplicationAgent(ping)
+	n.peerUp("collector")
+	n.peerUp("r1")
+	n.peerUp("far")
+	kinds := map[string]bool{}
+	judged := 0
+	judge := func() { // bundles are judged at the (virtual) time they were generated, before the clock moves on
+		upto := n.nSends()
+		c02JudgeGenerated(n, judged, t.Algo, &out, kinds)
+		judged = upto
+	}
+	all := uint64(ref.FReqReception | ref.FReqForward | ref.FReqDelivery | ref.FReqDeletion)
+	mk := func(dst string, seq uint64, flags uint64, ext []gen.BSpec, lifetime uint64) bpv7.Bundle {
+		return gen.Spec{Dst: dst, Src: "dtn://far/app", Rpt: "dtn://collector/r", PCRC: 2, Time: DtnNow() - 1000, Seq: seq, Lifetime: lifetime, PayLen: 5, PaySeed: byte(seq), Flags: flags, Ext: ext}.Build()
+	}
+	n.receive(mk("dtn://dest/x", 1, all, nil, 3600000), "r1")                                                                                    // received + forwarded (epidemic: to the relays)
+	n.receive(mk("dtn://node/app", 2, all|ref.FStatusTime, nil, 3600000), "r1")                                                                  // received + delivered, with times
+	n.receive(mk("dtn://dest/x", 3, all, []gen.BSpec{{Kind: "hop", N: []uint64{4, 4}}}, 3600000), "r1")                                          // deleted: hop limit
+	n.receive(mk("dtn://dest/x", 4, all, []gen.BSpec{{Kind: "unk", N: []uint64{240}, Len: 2, Flags: ref.BDelete | ref.BReport}}, 3600000), "r1") // deleted: unsupported block
+	n.receive(mk("dtn://node/ping", 5, 0, nil, 3600000), "r1")                                                                                   // pong
+	before := n.nSends()
+	_ = before
+	n.core.VerifAgentMarker(gen.MustEID("dtn://node/ping"))
+	n.core.VerifAgentMarker(gen.MustEID("dtn://node/ping"))
+	n.core.VerifAgentFlush()
+	waitFor(func() bool {
+		for _, s := range n.sendsSince(0) {
+			if rb, derr := ref.Decode(s.Enc); derr == nil && rb.P.Src.String() == "dtn://node/ping" {
+				return true
+			}
+		}
+		return false
+	})
+	n.agent.sender <- agent.SyscallRequestMessage{Sender: n.agent.eids[0], Request: "verif-marker-1"}
+	n.agent.sender <- agent.SyscallRequestMessage{Sender: n.agent.eids[0], Request: "verif-marker-2"}
+	n.peerUp("r2") // routing metadata for a new peer (prophet: summary vector; dtlsr: link-state broadcast on the next job)
+	for _, job := range []string{"dtlsr_broadcast", "dtlsr_recompute"} {
+		judge()
+		n.advance(61 * time.Second)
+		n.runCron(job)
+		n.flush()
+	}
+	judge()
+	for k := range kinds {
+		out.Kinds = append(out.Kinds, k)
+	}
+	sort.Strings(out.Kinds)
+	return mustJSON(out)
+}
+
+// c02JudgeGenerated judges the node-generated bundles among the sends [from, ...) at the current virtual time.
+func c02JudgeGenerated(n *nhNode, from int, algo string, out *c02NodeOut, kinds map[string]bool) {
+	for _, s := range n.sendsSince(from) {
+		rb, derr := ref.Decode(s.Enc)
+		if derr != nil {
+			out.Viol = append(out.Viol, schedViol{Key: "node-generated-malformed", Desc: derr.Error()})
+			continue
+		}
+		if rb.P.Src.NodeName() != "node" {
+			continue
+		}
+		out.Generated++
+		kind := "other:" + rb.P.Dst.String()
+		switch {
+		case rb.P.Flags&ref.FAdminRecord != 0:
+			kind = "status-report"
+			if rep, rerr := decodeReport(rb); rerr == nil {
+				kind = fmt.Sprintf("status-report:%d/%d", rep.Status, rep.Reason)
+			}
+		case rb.P.Src.String() == "dtn://node/ping":
+			kind = "pong"
+		case rb.Find(ref.TProphet) != nil:
+			kind = "prophet-metadata"
+		case rb.Find(ref.TDTLSR) != nil:
+			kind = "dtlsr-metadata"
+		}
+		kinds[kind] = true
+		if rules := rb.Rules(DtnNow()); len(rules) > 0 {
+			out.Viol = append(out.Viol, schedViol{Key: "node-generated-violating:" + rules[0] + ":" + strings.SplitN(kind, ":", 2)[0], Desc: fmt.Sprintf("a %s generated by the node (%s, %s routing) violates %v", kind, rb.ID(), algo, rules)})
+			continue
+		}
+		if _, perr := gen.Parse(s.Enc); perr != nil {
+			out.Viol = append(out.Viol, schedViol{Key: "node-generated-rejected-by-parser:" + strings.SplitN(kind, ":", 2)[0], Desc: fmt.Sprintf("a %s generated by the node is rejected by the parser: %v", kind, perr)})
+		}
+	}
+}
+
+func c02NodeGenerated(r *ev.Run) (generated int, kinds map[string]bool) {
+	kinds = map[string]bool{}
+	algos := []string{"epidemic", "prophet", "dtlsr", "binary_spray"}
+	var tasks [][]byte
+	for _, a := range algos {
+		tasks = append(tasks, mustJSON(map[string]string{"algo": a}))
+	}
+	var mu sync.Mutex
+	runPool("c02node", 0, tasks, func(i int, pr poolResult) {
+		mu.Lock()
+		defer mu.Unlock()
+		if pr.Crashed {
+			r.Violation("C02/node-crashed", "none", "node process died: "+lastLines(pr.Stderr, 10), algos[i])
+			return
+		}
+		var o c02NodeOut
+		_ = json.Unmarshal(pr.Res, &o)
+		generated += o.Generated
+		for _, k := range o.Kinds {
+			kinds[k] = true
+		}
+		for _, v := range o.Viol {
+			r.Violation("C02/"+v.Key, "none", v.Desc, algos[i])
+		}
+	})
+	return
 }
